@@ -659,6 +659,46 @@ theorem C04_model_probs_physical {h a : ℕ} (am ph : PRBM ℝ n h a) (us : Fin 
       Matrix.trace, Complex.re_sum, ← sum_rows n (fun σ => (Matrix.diag (C02.rhoMat am ph) σ).re)]
     rfl
 
+/-- row `idxOf σ` of the generated Hilbert space is the basis state `σ` (bit `n-1-j` of the big-endian index is `σ j`) -/
+theorem spaceBit_idxOf (σ : Fin n → Bool) (j : Fin n) : spaceBit n (idxOf σ) j = σ j := by
+  unfold spaceBit
+  rw [Nat.testBit_eq_decide_div_mod_eq, idxOf_div_mod]
+  cases σ j <;> simp
+
+theorem spaceRow_idxOf (σ : Fin n → Bool) : (spaceRow n (idxOf σ) : Fin n → ℝ) = C02.bits σ := by
+  funext j
+  simp only [spaceRow, C02.bits, spaceBit_idxOf]
+
+/-- **C04.3c (density matrix TAKEN FROM THE MODEL; second audit, item C04-1)**: `rotate_rho(nn_state, basis, space)` with
+`rho = nn_state.rho(space, space)` — the matrix of the PRBM model over the generated Hilbert space — is EXACTLY
+`U ρ_λμ U†`, for every parameter setting and with no hypothesis: `C04_rotate_rho_hermitian` composed with the Hermiticity of
+the model's matrix (C02: `C02_hermitian_entry`, the fact behind `C02_hermitian`). -/
+theorem C04_rotate_rho_model {h a : ℕ} (am ph : PRBM ℝ n h a) (us : Fin n → M2 ℝ) :
+    rhoMat (n := n) (rotateRho n us (fun k l => Density.rho am ph (spaceRow n k) (spaceRow n l)))
+      = denseK us * C02.rhoMat am ph * (denseK us)ᴴ := by
+  have hM : rhoMat (n := n) (fun k l => Density.rho am ph (spaceRow n k) (spaceRow n l)) = C02.rhoMat am ph := by
+    funext σ τ
+    simp only [rhoMat, spaceRow_idxOf]
+    rfl
+  have hH : (C02.rhoMat am ph).IsHermitian := by
+    ext σ τ
+    rw [Matrix.conjTranspose_apply]
+    exact (C02.C02_hermitian_entry am ph (C02.bits τ) (C02.bits σ)).symm
+  rw [C04_rotate_rho_hermitian _ _ (by rw [hM]; exact hH), hM]
+
+/-- **C04.1c (wavefunction TAKEN FROM THE MODEL)**: `rotate_psi(nn_state, basis, space)` with `psi = nn_state.psi(space)` is the
+dense operator applied to the model's `ψ_λμ` (complex) resp. `ψ_λ` (positive) indexed by basis states. -/
+theorem C04_rotate_psi_model {h : ℕ} (am ph : RBM ℝ n h) (us : Fin n → M2 ℝ) :
+    psiVec (rotatePsi n us (fun k => Wave.psiCplx am ph (spaceRow n k)))
+        = (denseK us).mulVec (fun τ => toC (Wave.psiCplx am ph (C02.bits τ)))
+    ∧ psiVec (rotatePsi n us (fun k => Wave.psiPos am (spaceRow n k)))
+        = (denseK us).mulVec (fun τ => toC (Wave.psiPos am (C02.bits τ))) := by
+  constructor <;>
+  · rw [C04_rotate_psi]
+    congr 1
+    funext τ
+    simp only [psiVec, spaceRow_idxOf]
+
 /-- **FINDING witness (C04-3, `create_dict(Z=<Hadamard>)`)**: one qubit, basis string `"Z"`, dictionary
 `create_dict(Z = X-matrix)`, `ψ = |0⟩`, outcome `σ = 1`. The fast path `rotate_psi_inner_prod` returns `ψ(1) = 0` (the
 letter `Z` is "not rotated"), while the dense Kronecker product of the per-site unitaries the basis string denotes over that
